@@ -665,6 +665,38 @@ example : theMap ⟨"new-issuer", "", [], NumericDate.zeroTime, NumericDate.zero
     .obj [("iss", .str "old-issuer"), ("sub", .str "kept")]⟩ =
     [("iss", .str "new-issuer"), ("sub", .str "kept")] := rfl
 
+/-! ### string content and member-name spelling
+
+`String` in Lean is valid UTF-8 by its type, so `claims_roundtrip` / `claims_roundtrip_general` /
+`custom_roundtrip` speak about exactly the Go strings with `utf8.ValidString` — every one of them:
+U+FFFD as a genuine character, NUL, controls, U+2028/2029, U+FEFF, non-BMP, `<>&`.  The STRING LAW
+of the JSON oracle is part of the hypothesis `hjson` (a string member of the marshalled map is
+found, equal, in the decoded object: encoding/json escapes `<`, `>`, `&`, U+2028, U+2029 on output and
+undoes it on input).  A Go string that is NOT valid UTF-8 is outside these theorems and cannot
+round-trip: json.Marshal rewrites the offending bytes to U+FFFD (harness: `claims/invalid-utf8-*`,
+where the requirement is "parses to what the standard library makes of it").  Lone-surrogate
+ESCAPES in a token (`"\ud800"`) are decoded by encoding/json to U+FFFD; goat takes the decoded
+string as it is. -/
+
+open Model.JWTClaims in
+/-- U+FFFD is a character like any other for the claims decoder -/
+example : getString ⟨[("sub", .str "re\uFFFDplacement")], none⟩ "sub" =
+    ("re\uFFFDplacement", true, ⟨[("sub", .str "re\uFFFDplacement")], none⟩) := rfl
+
+open Model.JWTClaims in
+/-- member names are matched exactly: `Iss`, `ISS`, `iſs` (U+017F), `iss ` are private claims, inert
+    for validation (the issuer verifier sees "") and kept in Raw under their own names -/
+example : getString ⟨[("Iss", .str "x"), ("ISS", .str "y"), ("i\u017Fs", .str "z"), ("iss ", .str "w")], none⟩ "iss" =
+    ("", false, ⟨[("Iss", .str "x"), ("ISS", .str "y"), ("i\u017Fs", .str "z"), ("iss ", .str "w")], none⟩) := rfl
+
+open Model.JWTClaims in
+example : getTime ⟨[("EXP", .num "3"), ("Exp", .num "3")], none⟩ "exp" =
+    .ok (NumericDate.zeroTime, false, ⟨[("EXP", .num "3"), ("Exp", .num "3")], none⟩) := rfl
+
+/-- DecodeCustom matches struct tags exactly as well: a member spelled `A` is not the field tagged `a` -/
+example : (decodeInto 5 innerTy (.strct [.str "old", .int 1]) (.obj [("A", .str "new"), ("N", .num "9")])).run demoOracle =
+    .ok (.strct [.str "old", .int 1]) := rfl
+
 /-! ### lemmas of the claims round trip (audience and string claims) -/
 
 open Model.JWTClaims GoatProofs.Lemmas.C10Claims in
